@@ -13,4 +13,11 @@ Check (C15_deadline : forall elapsed lifetime qt attempt, lifetime <= elapsed ->
 Check (C15_attempt_over_retries : forall elapsed lifetime qt attempt,
   elapsed < lifetime -> match qt with Some t => t | None => lifetime end <= attempt ->
   query_left elapsed lifetime qt attempt = Err IO_TIMEDOUT).
-Print Assumptions C15_armed_within_lifetime. Print Assumptions C15_deadline. Print Assumptions C15_attempt_over_retries.
+Check (C15_armed_before_call_deadline : forall now start qs lifetime qt tau,
+  start <= qs -> qs <= now ->
+  (lifetime_left_at now start qs lifetime = Ok tau -> 0 < tau /\ now + tau <= start + lifetime) /\
+  (query_left_at now start qs lifetime qt = Ok tau ->
+     0 < tau /\ now + tau <= start + lifetime /\ now + tau <= qs + match qt with Some t => t | None => lifetime end) /\
+  (tcp_prefix_timeout_at now start qs lifetime = Ok tau -> 0 < tau /\ now + tau <= start + lifetime) /\
+  (tcp_body_timeout_at now start qs lifetime = Ok tau -> 0 < tau /\ now + tau <= start + lifetime)).
+Print Assumptions C15_armed_within_lifetime. Print Assumptions C15_deadline. Print Assumptions C15_attempt_over_retries. Print Assumptions C15_armed_before_call_deadline.
